@@ -420,7 +420,17 @@ func (ex *Exec) callSpec(fr *Frame, st *State, c *FuncContract, args []*Value, r
 	}
 	env.st = st
 	env.old = pre
+	internal := map[string]bool{}
+	for _, cc := range c.Calls {
+		for _, g := range cc.Sets {
+			internal[g.Name] = true
+		}
+	}
 	for _, e := range c.Ensures {
+		if exprMentions(e.Expr, internal) {
+			// speaks about ghost state private to the callee's own execution
+			continue
+		}
 		cond := ex.evalSpecBool(env, e.Expr)
 		ex.assume(st, cond)
 		if e.Trusted {
@@ -1606,4 +1616,33 @@ func funcFieldName(v ssa.Value) string {
 		pkg = n.Obj().Pkg().Name() + "."
 	}
 	return "field:" + pkg + n.Obj().Name() + "." + st.Field(fa.Field).Name()
+}
+
+func exprMentions(e Expr, names map[string]bool) bool {
+	if len(names) == 0 {
+		return false
+	}
+	switch e := e.(type) {
+	case *EIdent:
+		return names[e.Name]
+	case *EUnary:
+		return exprMentions(e.X, names)
+	case *EBinary:
+		return exprMentions(e.X, names) || exprMentions(e.Y, names)
+	case *ECall:
+		for _, a := range e.Args {
+			if exprMentions(a, names) {
+				return true
+			}
+		}
+	case *EIndex:
+		return exprMentions(e.X, names) || exprMentions(e.I, names)
+	case *ESlice:
+		return exprMentions(e.X, names) || (e.Lo != nil && exprMentions(e.Lo, names)) || (e.Hi != nil && exprMentions(e.Hi, names))
+	case *EField:
+		return exprMentions(e.X, names)
+	case *EQuant:
+		return exprMentions(e.Body, names)
+	}
+	return false
 }
